@@ -2,13 +2,17 @@ ENTRY = dict(
     gen=["suites"],
     runner="C28", pkg="./cmd/c28", corr=["Corr.C28Corr"], n=dict(quick=1, thorough=1), runner_timeout=1200,
     rule="every AEAD suite a crypto/tls server implements (6 AES-GCM and 2 ChaCha20 suites at TLS 1.2, the 3 TLS 1.3 suites): a "
-         "uTLS client (custom spec offering exactly that suite/version) handshakes over loopback TCP; then, at successive sequence "
-         "positions (3 rounds, thorough 8 with random n), for n in {0,1,15,16,17,1000,16384}: GetOutKeystream(n), a write of n..n+39 "
-         "bytes, the recorded next record compared byte by byte with plaintext xor keystream after the explicit nonce (Go-side "
-         "oracle), the peer must read the bytes back; cases pin len(ks), unchanged sequence number, type/version/length/explicit "
-         "nonce of the record against the model; one CBC connection must be refused. Distinct by (suite, version, seq, n); "
-         "non-trivial when n > 0.",
-    trusted_base=["hooks/verif_c27.go (VerifRecordState)", "crypto/tls server of the Go toolchain as the peer",
+         "uTLS client (custom spec offering exactly that suite/version) handshakes over loopback TCP. Every probe = GetOutKeystream(n), "
+         "then a real record of n..n+39 bytes whose recorded ciphertext is compared byte by byte with plaintext xor keystream after the "
+         "explicit nonce (Go-side oracle) and which the peer must read back. Scenarios per connection: n in {0,1,15,16,17,1000,16384} "
+         "(thorough: 5 more rounds of random n); repeated equal/shrinking/growing n (1000,1000,16,17,5000,100,100,16384,3); the first "
+         "carry of the record counter (plain writes up to record 253, then probes at 253..258). Against the uTLS server as peer (it has "
+         "the hooks; quick: the 3 TLS 1.3 suites + one GCM + one ChaCha20 TLS 1.2 suite, thorough: all): TLS 1.3 histories of 4 key "
+         "updates, alternately started by the client and requested by the peer, probes after each generation; both matched halves "
+         "moved with VerifSetSeq to 2^16-2, 2^24-2, ... 2^56-2 and probed across each byte boundary. Cases pin len(ks), unchanged "
+         "sequence number, type/version/length/explicit nonce of the record against the model; one CBC connection must be refused. "
+         "Distinct by (suite, version, scenario, seq, n); non-trivial when n > 0.",
+    trusted_base=["hooks/verif_c27.go (VerifRecordState), hooks/verif_c25.go (VerifSendKeyUpdate), hooks/verif_c28.go (VerifSetSeq): test equipment", "crypto/tls server of the Go toolchain as the peer",
                   "AEAD laws as premises (prims_ok): stream form, keystream independent of requested length, 16-byte tag"],
     assumes=["the AEAD is a stream cipher plus tag (true of AES-GCM and ChaCha20-Poly1305), stated as prims_ok",
              "n does not exceed the plaintext carried by the next record; no 64-bit sequence number wrap"],
